@@ -201,8 +201,10 @@ def run_case(case):
                 want = resolve(claimed_root, bits_of(k), forged)
                 got = impl("if_branch_valid", if_branch_valid, forged, claimed_root, k, claim,
                            allowed=(Exception,))
+                info.label("script-applied", applied > 0)
                 if want not in (MISSING, MALFORMED):
                     parsable_corruption |= applied > 0
+                    info.label("corrupted-still-parsable", applied > 0)
                 if got is True:
                     expect("forged-branch-never-validates-wrong-answer",
                            want not in (MISSING, MALFORMED) and want == claim,
